@@ -111,6 +111,9 @@ def run(db, rep, tier):
     rep.rule("R8-tagged-storage", "PDUOption keeps `real_size_ > small_buffer_size <=> payload_ holds an owned heap block` through every special "
                                   "member: typestate over (size class, heap ownership) on every path", 12)
     r8(db, rep)
+    rep.rule("R9-alias-safe", "PDU::inner_pdu(const PDU&) takes its copy of the argument before the current child chain is released (the argument "
+                              "may be one of the receiver's own descendants); PDU copies start without a parent link", 3)
+    r9(db, rep)
     controls(db, rep)
     rep.explanation = ("Decides the ownership/linking clauses of C12 that are visible in the shape of the special members and of "
                        "the child-link mutators: every pointer-owning class (found from its destructor) is checked member by "
@@ -1091,3 +1094,61 @@ def r8(db, rep):
                 rep.ok("R8-tagged-storage", key, facts.loc(f), "all %d end states consistent" % len(finals))
     if done < 12:
         rep.analysis_broken("only %d PDUOption special members analysed" % done)
+
+
+def r9(db, rep):
+    # (a) inner_pdu(const PDU&)
+    fs = [f for fid, f in db.functions.items() if fid.startswith("Tins::PDU::inner_pdu(const Tins::PDU &)") and f.get("body")]
+    if not fs:
+        rep.analysis_broken("PDU::inner_pdu(const PDU&) vanished")
+    else:
+        f = fs[0]
+        g = cfg.FnCFG(f)
+        pv = f["params"][0]["var"]
+        uses = [x for x in facts.fn_nodes(f) if x["k"] == "DeclRefExpr" and x.get("var") == pv]
+        rel = [x for x in facts.fn_nodes(f) if x["k"] == "CXXDeleteExpr" and this_field(x["c"][0], "inner_pdu_")]
+        rel += [x for x in facts.fn_nodes(f) if x["k"] == "BinaryOperator" and x.get("op") == "=" and this_field(x["c"][0], "inner_pdu_")]
+        rel += [x for x in facts.fn_nodes(f) if x["k"] == "CXXMemberCallExpr" and x.get("cname") in ("inner_pdu", "release_inner_pdu") and
+                x["c"][0].get("c") and strip(x["c"][0]["c"][0])["k"] == "CXXThisExpr"]
+        key = "PDU::inner_pdu(const PDU&):order"
+        bad = None
+        for u in uses:
+            for r in rel:
+                pu, pr = g.pos(u), g.pos(r)
+                # a use evaluated as an argument of the releasing call itself comes first
+                if any(y is u for y in facts.walk(r)):
+                    continue
+                if pu and pr and path_avoiding(g, pr, pu, []):
+                    bad = (u, r)
+        if bad:
+            rep.violation("R9-alias-safe", key, facts.loc(f, bad[0]),
+                          "the argument is used after the receiver's current child chain was released (line %s): when the argument is a "
+                          "descendant of the receiver (strip one encapsulation layer) it has been destroyed by then" % bad[1].get("l"))
+        else:
+            rep.ok("R9-alias-safe", key, facts.loc(f), "the argument is cloned before anything is released")
+    # (b) copies are roots
+    r = db.records.get(PDU) or {}
+    n = 0
+    for m in r.get("methods", []):
+        f = db.fn(m["id"])
+        if f is None or not f.get("body") or f.get("special") not in ("copy_ctor", "move_ctor", "copy_assign", "move_assign"):
+            continue
+        n += 1
+        key = "PDU::%s:parent" % f["special"]
+        pv = f["params"][0]["var"] if f["params"] else None
+        bad = None
+        for i in f.get("inits", []):
+            if i.get("member") == "parent_pdu_" and any(y["k"] == "DeclRefExpr" and y.get("var") == pv for y in facts.walk(i["e"])):
+                bad = i["e"]
+        for x in facts.fn_nodes(f):
+            if x["k"] == "BinaryOperator" and x.get("op") == "=" and this_field(x["c"][0], "parent_pdu_") and \
+                    any(y["k"] == "DeclRefExpr" and y.get("var") == pv for y in facts.walk(x["c"][1])):
+                bad = x
+        if bad is not None:
+            rep.violation("R9-alias-safe", key, facts.loc(f),
+                          "the copy takes over the source's parent link: a copied or cloned inner layer is not a root - it reads the source "
+                          "packet's lower layer (checksums), and the link dangles when the source is destroyed")
+        else:
+            rep.ok("R9-alias-safe", key, facts.loc(f), "parent_pdu_ is not taken from the source")
+    if n < 2:
+        rep.analysis_broken("PDU copy / move members not found (%d)" % n)
